@@ -9,7 +9,7 @@ open Spec
 
 /-! ### generic loop round trips -/
 
-theorem flatMap_length_ge {α : Type} (enc : α → Bytes) (k : Nat) (as : List α)
+theorem flatMap_length_ge_a6 {α : Type} (enc : α → Bytes) (k : Nat) (as : List α)
     (h : ∀ a ∈ as, k ≤ (enc a).length) : k * as.length ≤ (as.flatMap enc).length := by
   induction as with
   | nil => simp
@@ -150,7 +150,7 @@ theorem parseIpTemplate_enc (t : IpTemplateSpec) (pad : Bytes) (ht : IpTemplateO
   rw [beU2_toBE h2]
   simp only [many0]
   have hlen : t.fields.length < (t.fields.flatMap encIpTField ++ pad).length + 1 := by
-    have := flatMap_length_ge encIpTField 4 t.fields (fun a _ => encIpTField_length_pos a)
+    have := flatMap_length_ge_a6 encIpTField 4 t.fields (fun a _ => encIpTField_length_pos a)
     rw [List.length_append]; omega
   rw [many0F_roundtrip parseIpTField encIpTField (fun f => IpTFieldOk f = true)
     (fun a r h => parseIpTField_enc a r h) (fun a _ => by have := encIpTField_length_pos a; omega)
